@@ -86,8 +86,10 @@ def replay(rec, ctx):
     prof = lambda x: 3.0 + 2.0 * x          # noqa: E731
     import numpy as np
     want = fr(rec["map2d"])
-    for name, f in (("function", eq.map2d(prof, value_outside_lcfs=-7.0)), ("array", eq.map2d(np.array([[0.0, 0.5, 1.0, 1.5], [3.0, 4.0, 5.0, 6.0]]), value_outside_lcfs=-7.0))):
-        if psin > 1.5 and name == "array":
+    # the linear profile as a function, as a 2 x 4 array and as a 2 x 2 array (the smallest table: two points)
+    for name, f in (("function", eq.map2d(prof, value_outside_lcfs=-7.0)), ("array", eq.map2d(np.array([[0.0, 0.5, 1.0, 1.5], [3.0, 4.0, 5.0, 6.0]]), value_outside_lcfs=-7.0)),
+                    ("array2x2", eq.map2d(np.array([[0.0, 1.5], [3.0, 6.0]]), value_outside_lcfs=-7.0))):
+        if psin > 1.5 and name != "function":
             continue
         got = f(r, z)
         if not core.close(got, want, rtol=1e-9, atol=1e-12):
@@ -120,6 +122,11 @@ def replay(rec, ctx):
     # mapped velocity: prescribed toroidal / poloidal / normal components, zero outside
     tor = lambda q: lin(VT, q); pol = lambda q: lin(VP, q); nrm = lambda q: lin(VN, q)     # noqa: E731,E702
     v2 = eq.map_vector2d(tor, pol, nrm)(r, z)
+    if rec["inside"]:
+        tab = lambda pr_: np.array([[0.0, 1.0], [lin(pr_, 0.0), lin(pr_, 1.0)]])     # noqa: E731  the same linear profiles as two-point tables
+        v2t = eq.map_vector2d(tab(VT), tab(VP), tab(VN))(r, z)
+        if not core.close([v2t.x, v2t.y, v2t.z], [v2.x, v2.y, v2.z], rtol=1e-9, atol=1e-9):
+            bad("map_vector2d[array2x2]-differs-from-function-profiles", f"{v2t} vs {v2}")
     if rec["inside"]:
         vt, vp, vn = lin(VT, psin), lin(VP, psin), lin(VN, psin)
         exp = (vp * pu[0] + vn * nu[0], vt, vp * pu[2] + vn * nu[2])
